@@ -7,6 +7,8 @@ what an accepted call guarantees about every run it contained.
 -/
 import Brc20.Model.Node
 import Brc20.Proofs.Node
+import Brc20.Model.Forks
+import Brc20.Gen.Constants
 
 namespace Brc20
 open Node
@@ -41,5 +43,31 @@ theorem C19.header_recorded (n : Node) (ts : Nat) (h : String) (txid : Option St
   obtain ⟨_, _, _, _, _, n', _, hn⟩ := addTxs_ok hok
   rw [hn]
   simp [bumpLbi_ts, bumpLbi_hash, l0, hw]
+
+/-- The activation heights the model driver answers `fork` lines with are the ones in the source now. -/
+theorem C19.fork_heights_pinned :
+    Gen.PRAGUE_ACTIVATION_HEIGHT_MAINNET = 923369 ∧ Gen.PRAGUE_ACTIVATION_HEIGHT_SIGNET = 275000 ∧
+    Gen.RLP_HASH_ACTIVATION_HEIGHT_MAINNET = 929000 ∧ Gen.RLP_HASH_ACTIVATION_HEIGHT_SIGNET = 0 := by decide
+
+/-- "Where the Prague rules are in force, and only there": on mainnet exactly from the activation height on, on signet
+exactly from its own, everywhere else (regtest, testnets, unknown names) at every height - for every height. -/
+theorem C19.prague_in_force_iff (net : String) (h : Nat) :
+    Forks.prague Gen.PRAGUE_ACTIVATION_HEIGHT_MAINNET Gen.PRAGUE_ACTIVATION_HEIGHT_SIGNET (Forks.netOf net) h = true ↔
+      ((net = "bitcoin" ∨ net = "mainnet") ∧ Gen.PRAGUE_ACTIVATION_HEIGHT_MAINNET ≤ h) ∨
+      (net = "signet" ∧ Gen.PRAGUE_ACTIVATION_HEIGHT_SIGNET ≤ h) ∨
+      (net ≠ "bitcoin" ∧ net ≠ "mainnet" ∧ net ≠ "signet") := by
+  unfold Forks.netOf
+  by_cases h1 : net = "bitcoin"
+  · subst h1; simp [Forks.prague]
+  · by_cases h2 : net = "mainnet"
+    · subst h2; simp [Forks.prague]
+    · by_cases h3 : net = "signet"
+      · subst h3; simp [Forks.prague]
+      · simp [Forks.prague, h1, h2, h3]
+
+/-- The rules never switch back: once in force at a height they are in force at every later height. -/
+theorem C19.prague_monotone (pm ps : Nat) (net : Forks.Net) (h h' : Nat) (hle : h ≤ h')
+    (hp : Forks.prague pm ps net h = true) : Forks.prague pm ps net h' = true := by
+  cases net <;> simp [Forks.prague] at * <;> omega
 
 end Brc20
